@@ -48,6 +48,18 @@ def main():
             bad += len(diff)
             print("DIVERGENCE hashseed=%s workers=%d: %d seeds differ, e.g. %s" % (hs, nw, len(diff), sorted(diff, key=int)[:10]))
     print("determinism %s: %d seeds x %d runs, divergent=%d" % (args.world, len(ref), len(runs), bad))
+    import json
+    import time
+    rp = os.path.join(HERE, "tools", "determinism_last_result.json")
+    try:
+        with open(rp) as f:
+            rec = json.load(f)
+    except Exception:
+        rec = {}
+    rec[args.world] = {"seeds": len(ref), "runs": [[hs, nw] for hs, nw, _ in runs], "divergent": bad,
+                       "at": time.strftime("%Y-%m-%d %H:%M:%S")}
+    with open(rp, "w") as f:
+        json.dump(rec, f, indent=1, sort_keys=True)
     return 1 if bad else 0
 
 
